@@ -259,14 +259,17 @@ def parseType (tb : Tables) (fuel : Nat) (allowEmptyArgs : Bool) : PM Ty :=
           pure (Ty.named parts args true)
         else pure (Ty.named parts [] false)
       else reportError "Expected type"
-    parseArraySuffixes tb fuel base
+    parseArraySuffixes tb fuel 0 base
 
 /-- the `while (match(LBracket))` loop of `parseType` -/
-def parseArraySuffixes (tb : Tables) (fuel : Nat) (base : Ty) : PM Ty :=
+def parseArraySuffixes (tb : Tables) (fuel : Nat) (dims : Nat) (base : Ty) : PM Ty :=
   match fuel with
   | 0 => outOfFuel
   | fuel + 1 => do
     if (← matchTok .LBracket) then
+      -- every `[...]` wraps the type once more: a run of brackets counts as nesting
+      let dims := dims + 1
+      if (← get).depth + dims > maxNestingDepth then reportError "nesting too deep"
       let mut size : Int := -1
       let mut sizeExpr : Option Expr := none
       if !(← check .RBracket) then
@@ -281,7 +284,7 @@ def parseArraySuffixes (tb : Tables) (fuel : Nat) (base : Ty) : PM Ty :=
       match base with
       | .void => reportError "array element type cannot be 'void'"
       | _ => pure ()
-      parseArraySuffixes tb fuel (Ty.array base size sizeExpr)
+      parseArraySuffixes tb fuel dims (Ty.array base size sizeExpr)
     else pure base
 
 def parseTypeArgumentList (tb : Tables) (fuel : Nat) (allowEmpty : Bool) : PM (List Ty) :=
